@@ -498,6 +498,7 @@ func applyKnobs(k Knobs) func() {
 func buildPool(s *Spec, st *buildStats) []geojson.Object {
 	pool := make([]geojson.Object, len(s.Pool))
 	for i := range s.Pool {
+		progressBump()
 		rc := &s.Pool[i]
 		if rc.Via == "share" {
 			pool[i] = buildShared(rc, pool[:i])
